@@ -215,7 +215,19 @@ func ptrAt(base *absint.Ptr, path []int) *absint.Ptr {
 }
 
 // Run interprets Step in one cell.
-func (m *CPUModel) Run(cell CPUCell) *CellResult {
+func (m *CPUModel) Run(cell CPUCell) *CellResult { return m.RunFn(cell, m.Step, nil) }
+
+// RenderEvent is one call that renders values into a trace line (xbuf.B method or fmt function).
+type RenderEvent struct {
+	Sink   string // "xbuf.X02", "fmt.Fprintf", ...
+	Guards map[string]bool
+	Vals   []absint.Val
+	Caller *ssa.Function
+	Pos    token.Pos
+}
+
+// RunFn interprets fn (a method of the CPU taking extra symbolic arguments) in one cell.
+func (m *CPUModel) RunFn(cell CPUCell, entry *ssa.Function, onRender func(RenderEvent)) *CellResult {
 	wk := m.pool.Get().(*cpuWorker)
 	defer m.pool.Put(wk)
 	ip := wk.w.IP
@@ -355,7 +367,62 @@ func (m *CPUModel) Run(cell CPUCell) *CellResult {
 		}
 		return nil, false
 	}
-	ret, out := ip.Call(m.Step, []absint.Val{cpu}, nil, st)
+	args := []absint.Val{cpu}
+	for i, p := range entry.Params[1:] {
+		name := fmt.Sprintf("arg%d", i)
+		if w, sg, ok := absint.IntType(p.Type()); ok {
+			// an explicit address argument stands for the current PC
+			if w == 16 {
+				args = append(args, res.Entry["PC"])
+			} else {
+				args = append(args, absint.NewSym(w, ip.In.Atom(name, w, ^uint64(0)>>(64-uint(w))), sg))
+			}
+		} else if _, ok := p.Type().Underlying().(*types.Slice); ok {
+			args = append(args, ip.Load(st, &absint.Ptr{Obj: ip.SymObj(name, types.NewPointer(p.Type())), T: p.Type()}, p.Type()))
+		} else {
+			args = append(args, &absint.Top{T: p.Type(), Key: name})
+		}
+	}
+	if onRender != nil {
+		prevOverride := ip.Hooks.OverrideCall
+		ip.Hooks.OverrideCall = func(ip *absint.Interp, st *absint.State, fn *ssa.Function, a []absint.Val) (absint.Val, bool) {
+			if fn.Pkg != nil && strings.HasSuffix(fn.Pkg.Pkg.Path(), "/xbuf") && fn.Signature.Recv() != nil {
+				var caller *ssa.Function
+				if ev := ip.CurFn(); ev != nil {
+					caller = ev
+				}
+				onRender(RenderEvent{Sink: "xbuf." + fn.Name(), Vals: a[1:], Caller: caller, Pos: ip.CurPos(), Guards: ip.Guards(st)})
+				if fn.Signature.Results().Len() == 1 {
+					return a[0], true
+				}
+				return nil, true
+			}
+			return prevOverride(ip, st, fn, a)
+		}
+		ip.Hooks.ExtCall = func(ip *absint.Interp, st *absint.State, ev *absint.Event) (absint.Val, bool) {
+			if strings.HasPrefix(ev.Callee, "fmt.") {
+				var vals []absint.Val
+				for _, a := range ev.Args {
+					if sl, ok := a.(*absint.Slice); ok && sl.Base.Obj != nil {
+						if n, ok := sl.Len.IsConst(); ok && n < 32 {
+							for i := 0; i < int(n); i++ {
+								v := ip.Load(st, elemPtr(&sl.Base, sl.ElemT, i), sl.ElemT)
+								if ifc, ok := v.(*absint.Iface); ok {
+									v = ifc.V
+								}
+								vals = append(vals, v)
+							}
+							continue
+						}
+					}
+					vals = append(vals, a)
+				}
+				onRender(RenderEvent{Sink: ev.Callee, Vals: vals, Caller: ev.Fn, Pos: ev.Pos, Guards: ip.Guards(st)})
+			}
+			return nil, false
+		}
+	}
+	ret, out := ip.Call(entry, args, nil, st)
 	res.Returned = out != nil
 	res.Ret = ret
 	res.Events = append([]absint.Event(nil), ip.Events...)
